@@ -36,6 +36,8 @@ type Expect struct {
 	Kind string `json:"kind"` // what annotation the fact comes from (for signatures)
 	Path []string `json:"path"`
 	Want any    `json:"want"`
+	// Absent: the path must NOT exist (a constraint that no annotation declared)
+	Absent bool `json:"absent,omitempty"`
 }
 
 type Case struct {
@@ -141,6 +143,10 @@ func (g *gen) next(prefix string) string { g.seq++; return fmt.Sprintf("%s%d", p
 
 func (g *gen) expect(kind string, want any, path ...string) {
 	g.exp = append(g.exp, Expect{Kind: kind, Path: path, Want: want})
+}
+
+func (g *gen) expectAbsent(kind string, path ...string) {
+	g.exp = append(g.exp, Expect{Kind: kind, Path: path, Absent: true})
 }
 
 // simpleField draws a non-body field (parameter, header or model property).
@@ -395,6 +401,76 @@ func genCase(t *rapid.T) Case {
 			g.sb.WriteString("\t// Deprecated: true\n\t//\n")
 			g.expect("route-deprecated", true, "paths", path, lm, "deprecated")
 		}
+		routeParams := map[string]bool{}
+		if chance(t, l+"_rparams", 40) {
+			// parameters declared in the route itself
+			g.sb.WriteString("\t// Parameters:\n")
+			nrp := rapid.IntRange(2, 4).Draw(t, l+"_nrp")
+			for k := 0; k < nrp; k++ {
+				rl := fmt.Sprintf("%s_rp%d", l, k)
+				name := g.next("rp")
+				routeParams[name] = true
+				ty := pick(t, rl+"_ty", []string{"integer", "integer", "number", "string", "boolean"})
+				sel := "param=query/" + name
+				pad := pick(t, rl+"_pad", []string{" ", "        "})
+				fmt.Fprintf(&g.sb, "\t// + name:%s%s\n\t//   in:%squery\n\t//   type:%s%s\n", pad, name, pad, pad, ty)
+				g.expect("route-parameter", ty, "paths", path, lm, "parameters", sel, "type")
+				declared := map[string]bool{}
+				if chance(t, rl+"_desc", 50) {
+					fmt.Fprintf(&g.sb, "\t//   description:%sthe %s parameter\n", pad, name)
+					g.expect("route-parameter", "the "+name+" parameter", "paths", path, lm, "parameters", sel, "description")
+				}
+				if chance(t, rl+"_req", 40) {
+					fmt.Fprintf(&g.sb, "\t//   required:%strue\n", pad)
+					g.expect("route-parameter", true, "paths", path, lm, "parameters", sel, "required")
+				}
+				if ty == "integer" || ty == "number" {
+					if chance(t, rl+"_min", 50) {
+						mn := rapid.IntRange(0, 9).Draw(t, rl+"_minv")
+						fmt.Fprintf(&g.sb, "\t//   min:%s%d\n", pad, mn)
+						g.expect("route-parameter-validation:minimum", float64(mn), "paths", path, lm, "parameters", sel, "minimum")
+						declared["minimum"] = true
+					}
+					if chance(t, rl+"_max", 50) {
+						mx := rapid.IntRange(10, 99).Draw(t, rl+"_maxv")
+						fmt.Fprintf(&g.sb, "\t//   max:%s%d\n", pad, mx)
+						g.expect("route-parameter-validation:maximum", float64(mx), "paths", path, lm, "parameters", sel, "maximum")
+						declared["maximum"] = true
+					}
+					if ty == "integer" && chance(t, rl+"_fmt", 40) {
+						f := pick(t, rl+"_fmtv", []string{"int32", "int64"})
+						fmt.Fprintf(&g.sb, "\t//   format:%s%s\n", pad, f)
+						g.expect("route-parameter", f, "paths", path, lm, "parameters", sel, "format")
+						declared["format"] = true
+					}
+					if chance(t, rl+"_def", 30) {
+						fmt.Fprintf(&g.sb, "\t//   default:%s9\n", pad)
+						declared["default"] = true
+					}
+				}
+				if ty == "string" {
+					if chance(t, rl+"_enum", 40) {
+						fmt.Fprintf(&g.sb, "\t//   enum:%sred,green\n", pad)
+						declared["enum"] = true
+					}
+					if chance(t, rl+"_sdef", 30) {
+						fmt.Fprintf(&g.sb, "\t//   default:%sred\n", pad)
+						declared["default"] = true
+					}
+				}
+				if ty == "boolean" && chance(t, rl+"_bdef", 40) {
+					fmt.Fprintf(&g.sb, "\t//   default:%strue\n", pad)
+					declared["default"] = true
+				}
+				// nothing that this parameter did not declare
+				for _, kw := range []string{"minimum", "maximum", "format", "default", "enum"} {
+					if !declared[kw] {
+						g.expectAbsent("route-parameter-undeclared:"+kw, "paths", path, lm, "parameters", sel, kw)
+					}
+				}
+			}
+			g.sb.WriteString("\t//\n")
+		}
 		g.sb.WriteString("\t// Responses:\n")
 		for _, code := range codes {
 			r := pick(t, l+"_resp"+code, resps)
@@ -636,6 +712,17 @@ func check(c Case) (o pbt.Outcome) {
 		kinds[e.Kind] = true
 		got, ok, missing := lookup(doc, e.Path)
 		var sig, msg string
+		if e.Absent {
+			if ok {
+				sig = "C17|undeclared|" + e.Kind
+				msg = fmt.Sprintf("no annotation declares %s, the document has %v there", strings.Join(e.Path, " / "), got)
+				if !seen[sig] {
+					seen[sig] = true
+					o.Fail(sig, "%s", msg)
+				}
+			}
+			continue
+		}
 		switch {
 		case !ok:
 			sig = "C17|missing|" + e.Kind + "|" + missingClass(missing, e.Path)
